@@ -256,11 +256,17 @@ class C11(Check):
         if case["special"]:
             mag = 10.0 ** rng.uniform(-9, 12, nb)
             obj.data[np.isfinite(obj.data)] = (rng.normal(0, 1, nb) * mag)[np.isfinite(obj.data)]
-        prefix = tmp / "out"
+        # the prefix as users write it: plain, with dots, or the name of one of the files themselves; a sibling
+        # result whose name is a prefix of this one lives in the same directory
+        stem = ["out", "run1a", "nz_z0.5", "nz_data"][case["seed"] % 4]
+        prefix = tmp / stem
+        read_as = tmp / (stem + ".dat") if case["seed"] % 8 >= 4 and "." not in stem else prefix
         try:
             with np.errstate(all="ignore"):
+                sibling = gen.gen_sampled(rng, cls, nb, nsamp, binning=binning)
+                sibling.to_files(tmp / stem[:-1])
                 obj.to_files(prefix)
-            back = cls.from_files(prefix)
+            back = cls.from_files(read_as)
         except Exception as e:
             tag = "one-bin" if nb == 1 else "multi-bin"
             bad(f"ascii:raises-{type(e).__name__}:{tag}", dict(error=f"{e}"[:300], samples=nsamp))
